@@ -855,6 +855,10 @@ pub fn patterns(full: bool) -> Vec<PathP> {
         v.push(PathP { start: np("a"), steps: vec![(rp(Some("r"), &[], Dir::Both), np("b")), (rp(Some("s"), &[], Dir::Both), np("c"))] });
         v.push(PathP { start: np("a"), steps: vec![(rp(Some("r"), &["S"], Dir::Out), np("a"))] });
         v.push(PathP { start: np("a"), steps: vec![(RelP { var: None, types: vec!["R"], dir: Dir::Out, varlen: Some((1, 2)) }, npl("b", "A"))] });
+        // cycle-closing patterns (a variable that is already bound at the far end of a hop)
+        v.push(PathP { start: np("a"), steps: vec![(rp(Some("r"), &[], Dir::Both), np("b")), (rp(Some("s"), &[], Dir::Both), np("a"))] });
+        v.push(PathP { start: np("a"), steps: vec![(rp(Some("r"), &[], Dir::In), np("b")), (rp(Some("s"), &[], Dir::Both), np("a"))] });
+        v.push(PathP { start: np("a"), steps: vec![(rp(Some("r"), &["R"], Dir::Out), np("b")), (rp(Some("s"), &[], Dir::Out), np("a"))] });
     }
     v
 }
@@ -875,6 +879,10 @@ pub fn predicates(has_b: bool) -> Vec<Option<Ex>> {
         Some(Ex::Xor(Box::new(Ex::Cmp("=", p("a"), lit(1))), Box::new(Ex::HasLabel("a", "A")))),
         Some(Ex::Not(Box::new(Ex::Cmp("<", p("a"), lit(2))))),
         Some(Ex::Cmp("<>", p("a"), lit(1))),
+        Some(Ex::Not(Box::new(Ex::And(Box::new(Ex::Cmp("=", p("a"), lit(1))), Box::new(Ex::HasLabel("a", "A")))))),
+        Some(Ex::Not(Box::new(Ex::And(Box::new(Ex::HasLabel("a", "A")), Box::new(Ex::Cmp("=", p("a"), lit(1))))))),
+        Some(Ex::Not(Box::new(Ex::Or(Box::new(Ex::Cmp("=", p("a"), lit(1))), Box::new(Ex::HasLabel("a", "A")))))),
+        Some(Ex::Not(Box::new(Ex::Or(Box::new(Ex::HasLabel("a", "B")), Box::new(Ex::Cmp("<", p("a"), lit(2))))))),
     ];
     if has_b {
         v.push(Some(Ex::Cmp("<", p("a"), p("b"))));
@@ -903,6 +911,14 @@ pub fn returns(vars: &[&'static str]) -> Vec<Clause> {
     v.push(ret(false, vec![uid("a")], vec![(0, true)], Some(1), Some(1)));
     v.push(ret(false, vec![uid("a")], vec![(0, false)], None, Some(0)));
     v.push(ret(false, vec![val("a"), Item::CountStar], vec![], None, None));
+    {
+        let p = || Box::new(Ex::Prop("a", "v"));
+        let one = || Box::new(Ex::Lit(CV::Int(1)));
+        let lab = |l: &'static str| Box::new(Ex::HasLabel("a", l));
+        v.push(ret(false, vec![uid("a"), Item::Ex(Ex::And(lab("A"), Box::new(Ex::Cmp("=", p(), one())))), Item::Ex(Ex::And(Box::new(Ex::Cmp("=", p(), one())), lab("A")))], vec![], None, None));
+        v.push(ret(false, vec![uid("a"), Item::Ex(Ex::Or(lab("B"), Box::new(Ex::Cmp("<", p(), one())))), Item::Ex(Ex::Xor(Box::new(Ex::Cmp("=", p(), one())), lab("A"))), Item::Ex(Ex::Not(Box::new(Ex::Cmp("=", p(), one()))))], vec![], None, None));
+        v.push(ret(false, vec![Item::Agg("count", Ex::And(lab("A"), Box::new(Ex::Cmp("=", p(), one()))), false)], vec![], None, None));
+    }
     if has("b") {
         v.push(ret(false, vec![uid("a"), uid("b")], vec![], None, None));
         v.push(ret(true, vec![uid("b")], vec![], None, None));
@@ -939,6 +955,12 @@ pub fn queries(full: bool) -> Vec<Query> {
                     seconds.push(Some(Clause::Unwind { items: vec![CV::Int(1), CV::Int(2), CV::Null], var: "u" }));
                     seconds.push(Some(Clause::Match { optional: true, parts: vec![PathP { start: np("a"), steps: vec![(rp(None, &["R"], Dir::Out), np("d"))] }], wh: None }));
                     seconds.push(Some(Clause::With { vars: vec!["a"], wh: Some(Ex::IsNull(Box::new(Ex::Prop("a", "v")), true)) }));
+                    if has_b {
+                        // both ends of the hop are already bound
+                        seconds.push(Some(Clause::Match { optional: false, parts: vec![PathP { start: np("b"), steps: vec![(rp(Some("x"), &[], Dir::Both), np("a"))] }], wh: None }));
+                        seconds.push(Some(Clause::Match { optional: true, parts: vec![PathP { start: np("b"), steps: vec![(rp(Some("x"), &[], Dir::Both), np("a"))] }], wh: None }));
+                        seconds.push(Some(Clause::Match { optional: false, parts: vec![PathP { start: np("b"), steps: vec![(rp(None, &[], Dir::In), np("a"))] }], wh: None }));
+                    }
                 }
                 for second in seconds {
                     let mut vars: Vec<&'static str> = pvars.clone();
